@@ -388,6 +388,72 @@ func runC04(r *mc.Run) {
 		eval(id, p.qi, ti, true)
 	})
 	r.SectionDone(mc.Section{Name: "two-level-product", Evaluations: int64(done), Exhaustive: done == len(prods)})
+
+	// long level lists: the first listed level that matches decides, however many levels precede or follow it
+	// (counts around thresholds an implementation might introduce); the levels before it each fail in a different
+	// component, the levels after it match too but carry another status
+	type longCase struct {
+		qi, n, pos, st int
+		module         bool
+	}
+	var longs []longCase
+	nonMatching := []int{2, 3, 4, 5, 7, 8, 9, 10, 12, 13}
+	for _, qi := range []int{0, 2} {
+		for _, n := range []int{8, 9, 16, 17, 33, 64, 100} {
+			for _, pos := range []int{-1, 0, 1, n / 2, n - 2, n - 1} {
+				for st := range statuses {
+					longs = append(longs, longCase{qi, n, pos, st, false})
+					if qi == 2 && (n == 9 || n == 17 || n == 100) {
+						longs = append(longs, longCase{qi, n, pos, st, true})
+					}
+				}
+			}
+		}
+	}
+	doneL := r.Parallel(len(longs), func(i int) {
+		lc := longs[i]
+		id := fmt.Sprintf("long-levels/q%d/n=%d,first-match@%d:%s,module-levels=%v", lc.qi, lc.n, lc.pos, statuses[lc.st], lc.module)
+		if !r.Want(id) {
+			return
+		}
+		full := [4]int{0, 0, 0, 0}
+		ti, _ := build(&mc.Ctx{}, lc.qi, &full)
+		q := quotes[lc.qi]
+		other := "UpToDate"
+		if statuses[lc.st] == "UpToDate" {
+			other = "Revoked"
+		}
+		if !lc.module {
+			ti.TcbLevels = nil
+			for k := 0; k < lc.n; k++ {
+				switch {
+				case lc.pos >= 0 && k == lc.pos:
+					ti.TcbLevels = append(ti.TcbLevels, c04Level(q.w.Plat, q.tee, 0, statuses[lc.st]))
+				case lc.pos >= 0 && k > lc.pos:
+					ti.TcbLevels = append(ti.TcbLevels, c04Level(q.w.Plat, q.tee, k%2, other))
+				default:
+					ti.TcbLevels = append(ti.TcbLevels, c04Level(q.w.Plat, q.tee, nonMatching[k%len(nonMatching)], "UpToDate"))
+				}
+			}
+		} else if len(ti.TdxModuleIdentities) == 2 {
+			// the same for the levels of the matching TDX module identity (isvsvn against TEE_TCB_SVN[0])
+			var ml []world.Level
+			for k := 0; k < lc.n; k++ {
+				isv, st := int(q.tee[0])+1+(lc.n-k)%3, "UpToDate"
+				switch {
+				case lc.pos >= 0 && k == lc.pos:
+					isv, st = int(q.tee[0]), statuses[lc.st]
+				case lc.pos >= 0 && k > lc.pos:
+					isv, st = int(q.tee[0])-k%2, other
+				}
+				ml = append(ml, world.Level{Tcb: world.Tcb{Isvsvn: world.IntP(isv)}, TcbDate: "2029-01-01T00:00:00Z", TcbStatus: st})
+			}
+			ti.TdxModuleIdentities[1].TcbLevels = ml
+		}
+		eval(id, lc.qi, ti, true)
+	})
+	r.SectionDone(mc.Section{Name: "long-level-lists", Evaluations: int64(doneL), Exhaustive: doneL == len(longs),
+		Note: "platform level lists (and module identity level lists) of 8..100 levels, first match at selected positions x every status"})
 }
 
 func whyClass(why string) string {
